@@ -16,7 +16,9 @@ around a body of constant 289).
 `(d.buf.drop d.off).take k` with `d.off + k ≤ d.lim` — never an octet at or beyond `d.lim`;
 `f_within`: the compound decoders leave the cursor inside the window (`d.off ≤ d'.off ≤ d.lim`, same
 buffer, same limit). A name is the exception allowed by the property: its in-place part ends inside the
-window (`name_within`), the rest is reached through compression pointers. -/
+window (`name_within`), the rest is reached through compression pointers.
+The stronger statement — the decoded value does not depend on any octet after the window — is
+`decRData_local` / `decRR_local` / `decFields_local` in `SafeLocalBodies.lean`. -/
 
 namespace Safe
 
